@@ -10,6 +10,16 @@ BASELINE = ("cd /repo && /venv/bin/python -m pytest -ra -q -p no:cacheprovider -
 
 # id -> (engine, technique, level text, level note, design ref)
 CHECKS = {
+    'C01': ('H', 'explicit-state exploration of provider transaction histories on the real provider+consumer stack (loop-back transport), canonical snapshot equality after every prefix',
+            'Every sequence of 2 events over a 48-event alphabet (all transaction kinds through both interfaces, contexts, location, '
+            'descriptor create/update/delete/re-create, parent+child in one transaction) plus every event from 4 non-initial '
+            'pre-states (thorough: depth 3 over an 18-event core alphabet and depth 2 from the pre-states) is executed on a real '
+            'SdcProvider + SdcConsumer + ConsumerMdib connected by an in-memory transport (real serialisation, schema validation, '
+            'parsing). After every prefix the canonical consumer snapshot must equal the provider snapshot (implied == explicit, '
+            '1 ms timestamps, clock time excluded) and the handles named by the consumer observables must be exactly the changed '
+            'entities. Failing histories are minimised before being reported.',
+            'Transport, HTTP server, ws-discovery, clock, uuid4 and Thread.start are harness stand-ins; one MDIB file '
+            '(tests/mdib_tns.xml); depth and alphabet bounds as stated in the evidence.', '3/C01'),
     'C15': ('I', 'exhaustive enumeration of all outcomes of both random draws (choice-point DFS on the real scheduling code)',
             'All 501 x 200 outcomes of the two random draws for the unicast and the multicast parameter set are executed '
             'on the real NetworkingThread.add_outbound_message/_repeated_enqueue_msg with clock and RNG owned by the '
